@@ -113,6 +113,7 @@ type replayFile struct {
 	Violation violation `json:"violation"`
 	OrigTape  int       `json:"orig_tape_len"`
 	Engine    string    `json:"engine"`
+	Env       []string  `json:"env,omitempty"` // extra environment of the shard (sub-scenario mode)
 	Extra     any       `json:"extra,omitempty"`
 }
 
@@ -215,6 +216,7 @@ type shardOut struct {
 	exit   int
 	stderr string
 	status string
+	env    []string
 }
 
 func runShard(b *build, cfg *propCfg, tier string, seed uint64, shard, nshards, budgetMS int, extra []string) shardOut {
@@ -251,9 +253,9 @@ func runShardAs(b *build, cfg *propCfg, tier string, seed uint64, shard, nshards
 		cmd.Process.Kill()
 		<-done
 		st, _ := os.ReadFile(statusPath)
-		return shardOut{exit: -2, stderr: tail(stderr.String(), 6000), status: string(st)}
+		return shardOut{exit: -2, stderr: tail(stderr.String(), 6000), status: string(st), env: extra}
 	}
-	so := shardOut{stderr: tail(stderr.String(), 12000)}
+	so := shardOut{stderr: tail(stderr.String(), 12000), env: extra}
 	if err != nil {
 		if ee, ok := err.(*exec.ExitError); ok {
 			so.exit = ee.ExitCode()
@@ -403,6 +405,12 @@ func check(id, tier string) int {
 	}
 	wg.Wait()
 	if cfg.ID == "C13" {
+		// sub-scenarios whose findings end the process run in a process of their own
+		ms := 8000
+		if tier == "thorough" {
+			ms = 120000
+		}
+		outs = append(outs, runShardAs(b, cfg, tier, seed, 0, 1, ms, []string{"VERIF_C13_MODE=extras", "VERIF_RANDOM_ONLY=1"}, "extras"))
 		n := 120
 		if tier == "thorough" {
 			n = 2000
@@ -474,7 +482,12 @@ func aggregate(cfg *propCfg, tier string, seed uint64, b *build, outs []shardOut
 				samples = append(samples, s)
 			}
 		}
-		viols = append(viols, r.Violations...)
+		for _, v := range r.Violations {
+			if len(v.Env) == 0 {
+				v.Env = so.env
+			}
+			viols = append(viols, v)
+		}
 		notes = append(notes, r.Notes...)
 		if !r.Exhaustive {
 			exhaustive = false
@@ -677,7 +690,7 @@ func crashReplay(cfg *propCfg, tier string, seed uint64, b *build, so shardOut, 
 	}
 	json.Unmarshal([]byte(strings.TrimSpace(so.status)), &st)
 	rf := replayFile{Property: cfg.ID, Tier: tier, Seed: seed, Stream: cfg.ID, Case: st.Index, Tape: st.Vals, Random: st.Random,
-		Violation: v, Engine: "libsim", OrigTape: len(st.Vals)}
+		Violation: v, Engine: "libsim", OrigTape: len(st.Vals), Env: so.env}
 	if _, ok := known.match(cfg.ID, v); ok {
 		return rf // a listed finding needs no minimised replay
 	}
@@ -737,6 +750,7 @@ func replayOnce(cfg *propCfg, b *build, rf *replayFile) (*violation, string) {
 	cmd.Env = append(os.Environ(), "VERIF_PROP="+cfg.ID, "VERIF_TIER="+rf.Tier, "VERIF_SEED="+strconv.FormatUint(rf.Seed, 10),
 		"VERIF_REPLAY="+rp, "VERIF_OUT="+outPath, "VERIF_CORPUS="+b.corpus, "VERIF_STATUS="+filepath.Join(dir, "status.json"),
 		"GOMAXPROCS=2", "GORACE=halt_on_error=1 exitcode=66 history_size=2", "GOTRACEBACK=all", "TMPDIR="+dir)
+	cmd.Env = append(cmd.Env, rf.Env...)
 	var buf bytes.Buffer
 	cmd.Stdout, cmd.Stderr = &buf, &buf
 	done := make(chan error, 1)
